@@ -1399,6 +1399,11 @@ class Interp:
                 sub.env[g.target.id] = x
                 out.append(self.eval(node.elt, sub, pure))
             return out
+        if isinstance(it, SBytes):
+            # iterating a byte string yields its ints: same as list(iter(b))
+            if isinstance(node.elt, ast.Name) and node.elt.id == g.target.id:
+                return SByteList(it.t)
+            it = SByteList(it.t)
         if isinstance(it, SByteList):
             # generic element: the element expression is executed once on an arbitrary byte value
             var = sym.fresh("elem")
